@@ -105,21 +105,25 @@ returns `true` in its first block without transmitting. -/
 def CacheFirstFull : Prop :=
   ∀ (name : String) (timeout : Int) (forced : Nat) (now : Int) (c : Cache) (h : Hist) (d : Int),
     drawOk d = true → CacheSuffices lower c name now → SrvTyped c →
-    ∃ s' o, step lower (Req.init lower name timeout forced) (.start now c h d) = some (s', o) ∧ o.ret = some true ∧ o.sent = none
-
-/-- **Cache first** — `_partial`: proved under the extra hypothesis `NewestSrvLive` (the SRV key object
-that `DNSCache.get_by_details` returns, i.e. the newest-inserted one of the instance, is unexpired).
-Without it the code does *not* answer from the cache (finding D14, signature
-`C18:cachefirst-shadowed-by-expired-srv`: an expired-but-unpurged SRV inserted later shadows a valid
-one; see `C18_cachefirst_refuted`).  What is missing for the full statement is exactly that case. -/
-theorem C18_cachefirst_partial (name : String) (timeout : Int) (forced : Nat) (now : Int) (c : Cache) (h : Hist) (d : Int)
-    (hd : drawOk d = true) (hsuf : CacheSuffices lower c name now) (hty : SrvTyped c)
-    (hnew : NewestSrvLive lower c name now) :
     ∃ s' o, step lower (Req.init lower name timeout forced) (.start now c h d) = some (s', o) ∧
       o.ret = some true ∧ o.sent = none ∧ o.asked = none ∧ o.wait = none ∧ s'.phase = .done true ∧
-      (o.info.v4 ≠ [] ∨ o.info.v6 ≠ []) := by
+      (o.info.v4 ≠ [] ∨ o.info.v6 ≠ [])
+
+/-- **Cache first** (full strength, about the code repaired by `notes/fixes/D14.diff`): a sufficient
+cache is answered in the `start` block — returns `true`, generates and sends nothing, does not sleep —
+whatever else the cache holds, in particular expired-but-unpurged records.
+
+History (D14): before the repair `_load_from_cache` took the SRV `DNSCache.get_by_details` returns, the
+newest-*inserted* key object, expired or not; with the cache `[SRV→h valid, SRV→g expired 4 s ago and
+unpurged, A of h valid]` (the three records of the non-vacuity example below, in that order) it ignored
+the expired SRV, never looked at the valid one, transmitted and timed out.  This theorem then only held
+under the extra hypothesis "the newest SRV key object is unexpired" (`C18_cachefirst_partial`) and its
+negation was proved at that witness (`C18_cachefirst_refuted`).  The repaired loader takes the newest
+*unexpired* SRV/TXT (`newestLive`), which `CacheSuffices` guarantees to have an addressed host. -/
+theorem C18_cachefirst : CacheFirstFull lower := by
+  intro name timeout forced now c h d hd hsuf hty
   have hc : (loadFromCache lower c (Req.init lower name timeout forced).info now).2 = true :=
-    loadInfo_cachefirst lower c name now hsuf hnew hty
+    loadInfo_cachefirst lower c name now hsuf hty
   refine ⟨_, _, step_start_complete lower _ now c h d rfl hd hc, rfl, rfl, rfl, rfl, rfl, ?_⟩
   have hc' : (loadInfo lower c (Info.fresh lower name) now).complete = true := hc
   simp only [Info.complete, GenFacts.Lookup.is_complete_iff] at hc'
@@ -219,7 +223,7 @@ theorem C18_qu_query (c : Cache) (h : Hist) (now : Int) (i : Info) :
     · intro hall
       exact ⟨_, genQuery_qu_txt lower c h now i ((knownAnswers_nil_iff lower c now i.name 16).mpr hall)⟩
 
-/-! ### the excluded case is real (finding D14), and the hypotheses are satisfiable -/
+/-! ### the hypotheses are satisfiable: the former D14 witness -/
 
 /-- a valid SRV (→ `h.local.`, TTL 120 s), an SRV inserted later (→ `g.local.`, TTL 1 s) and an address of `h.local.`, all created at 0 -/
 def exSrvLive : Rec := ⟨"i._x._tcp.local.", 33, 1, true, 120, 0, .srv 0 0 80 "h.local."⟩
@@ -238,33 +242,21 @@ theorem exSuffices (c : Cache) (hc : ∀ x, x ∈ c ↔ x = exSrvLive ∨ x = ex
   · exact absurd he (by decide)
   · exact absurd ht (by decide)
 
-/-- **The full-strength cache-first sentence is false of the code** (finding D14): at time 5 s the cache
-`[SRV→h (valid), SRV→g (expired 4 s ago, unpurged), A of h (valid)]` suffices, yet the `start` block
-does not return — `get_by_details` hands `_load_from_cache` the expired SRV, which is ignored. -/
-theorem C18_cachefirst_refuted : ¬ CacheFirstFull id := by
-  intro hfull
-  have hty : SrvTyped [exSrvLive, exSrvDead, exAddr] := by
-    intro x hx _
-    simp only [List.mem_cons, List.not_mem_nil, or_false] at hx
-    rcases hx with rfl | rfl | rfl <;> first | rfl | simp_all [exAddr]
-  obtain ⟨s', o, hs, hret, -⟩ := hfull "i._x._tcp.local." 200 0 5000 [exSrvLive, exSrvDead, exAddr] [] 20 (by decide)
-    (exSuffices _ (by intro x; simp)) hty
-  have hcomp : (step id (Req.init id "i._x._tcp.local." 200 0) (.start 5000 [exSrvLive, exSrvDead, exAddr] [] 20)).map
-      (fun p => p.2.ret) = some none := by decide
-  rw [hs] at hcomp
-  simp only [Option.map_some, Option.some.injEq] at hcomp
-  rw [hret] at hcomp
-  exact absurd hcomp (by simp)
+/-- non-vacuity of `C18_cachefirst`: at time 5 s the cache `[SRV→h valid, SRV→g expired 4 s ago and
+unpurged, A of h valid]` — the state that defeated the unrepaired loader — satisfies the hypotheses … -/
+example : CacheSuffices id [exSrvLive, exSrvDead, exAddr] "i._x._tcp.local." 5000 ∧
+    SrvTyped [exSrvLive, exSrvDead, exAddr] ∧ drawOk 20 = true := by
+  refine ⟨exSuffices _ (by intro x; simp), ?_, by decide⟩
+  intro x hx
+  simp only [List.mem_cons, List.not_mem_nil, or_false] at hx
+  rcases hx with rfl | rfl | rfl
+  · exact ⟨fun _ => rfl, fun _ => ⟨0, 0, 80, "h.local.", rfl⟩⟩
+  · exact ⟨fun _ => rfl, fun _ => ⟨0, 0, 81, "g.local.", rfl⟩⟩
+  · exact ⟨fun ⟨_, _, _, _, h⟩ => by simp [exAddr] at h, fun h => absurd h (by decide)⟩
 
-/-- non-vacuity of `C18_cachefirst_partial`: the same three records with the expired SRV inserted
-*first* satisfy all hypotheses (a state with an expired-but-unpurged record), and the lookup returns at once -/
-example : CacheSuffices id [exSrvDead, exSrvLive, exAddr] "i._x._tcp.local." 5000 ∧
-    NewestSrvLive id [exSrvDead, exSrvLive, exAddr] "i._x._tcp.local." 5000 ∧ drawOk 20 = true :=
-  ⟨exSuffices _ (by intro x; simp only [List.mem_cons, List.not_mem_nil, or_false]; exact ⟨fun h => h.elim (fun a => Or.inr (Or.inl a)) (fun h => h.elim Or.inl (fun a => Or.inr (Or.inr a))), fun h => h.elim (fun a => Or.inr (Or.inl a)) (fun h => h.elim Or.inl (fun a => Or.inr (Or.inr a)))⟩),
-   ⟨exSrvLive, "h.local.", by decide, by simp, rfl, rfl, rfl, by decide, 0, 0, 80, rfl⟩, by decide⟩
-
-example : (step id (Req.init id "i._x._tcp.local." 200 0) (.start 5000 [exSrvDead, exSrvLive, exAddr] [] 20)).map
-    (fun p => (p.2.ret, p.2.sent.isSome, p.2.info.v4)) = some (some true, false, [[10, 0, 0, 1]]) := by decide
+/-- … and the (repaired) lookup answers from it at once, with the valid SRV's data, sending nothing -/
+example : (step id (Req.init id "i._x._tcp.local." 200 0) (.start 5000 [exSrvLive, exSrvDead, exAddr] [] 20)).map
+    (fun p => (p.2.ret, p.2.sent.isSome, p.2.info.port, p.2.info.v4)) = some (some true, false, some 80, [[10, 0, 0, 1]]) := by decide
 
 /-- non-vacuity of `C18_deadline` / `C18_iff` / `C18_qu_then_qm`: an empty cache, an SRV+A response at
 +100 ms wakes the task, which returns `true` at +100 ms -/
